@@ -828,6 +828,14 @@ impl TCheck {
                         if !is_label {
                             return fail(0, "label-span-not-a-label", format!("error {:?}: first span {sp:?} reads {t:?}, which is not a label spelling", e.kind));
                         }
+                        // every span of a label error reads some label
+                        for sp in e.span.iter() {
+                            let t = src.get(sp.clone()).unwrap_or("");
+                            let ok = !t.is_empty() && t.chars().all(|c| c.is_alphanumeric() || c == '_') && !t.chars().next().unwrap().is_ascii_digit();
+                            if !ok {
+                                return fail(0, "label-span-not-a-label", format!("error {:?}: span {sp:?} reads {t:?}, which is not a label spelling", e.kind));
+                            }
+                        }
                         // the injected fault names the offending label: every span reads a spelling of it
                         let offending: Option<&str> = match kind {
                             0 => Some("DUPL_X"),
@@ -1326,6 +1334,8 @@ fn inject_src_fault(src: &str, kind: u8, at: u32) -> String {
             lines.insert((k + 2).min(lines.len()), "CAFÉ .fill 2".into());
         }
         16 => lines.push("LATE_É".into()),
+        // three labels stacked on one statement outside every block
+        17 => lines.push("LA_Q\nLB_Q\nLC_Q .fill 1".into()),
         _ => lines.push(".orig xFFF0\n.blkw 32\n.end".into()),
     }
     lines.join("\n")
@@ -1390,7 +1400,7 @@ impl Check for TCheck {
             }
             Prop::C26 => {
                 if r.chance(1, 2) {
-                    s.src_fault = Some((r.below(17) as u8, r.below(64) as u32));
+                    s.src_fault = Some((r.below(18) as u8, r.below(64) as u32));
                     s.files.truncate(1);
                 } else if r.chance(1, 3) {
                     // damaged-object arm: one file of the set went through a disk that rewrote the
